@@ -177,8 +177,8 @@ func xcrdProbeXRD() *v1.CompositeResourceDefinition {
 		ObjectMeta: metav1.ObjectMeta{Name: "xprobes.example.org"},
 		Spec: v1.CompositeResourceDefinitionSpec{
 			Group:      "example.org",
-			Names:      extv1.CustomResourceDefinitionNames{Kind: "XProbe", Plural: "xprobes"},
-			ClaimNames: &extv1.CustomResourceDefinitionNames{Kind: "Probe", Plural: "probes"},
+			Names:      extv1.CustomResourceDefinitionNames{Kind: "XProbe", Plural: "xprobes", Singular: "xprobe", ListKind: "XProbeList"},
+			ClaimNames: &extv1.CustomResourceDefinitionNames{Kind: "Probe", Plural: "probes", Singular: "probe", ListKind: "ProbeList"},
 			Versions: []v1.CompositeResourceDefinitionVersion{{
 				Name: "v1", Served: true, Referenceable: true,
 				Schema: &v1.CompositeResourceValidation{OpenAPIV3Schema: runtime.RawExtension{Raw: []byte(`{}`)}},
